@@ -178,7 +178,12 @@ Definition check_and_cast (c : cfg) (i : input) : res carr :=
       | t =>
           if existsb (fun k => (0 <? k) && (k <? den c)) (all_pixels i) then Err "ValueError" else
           match i with
-          | Label ps => Ok (CLabel false (map (map (cast_float_bin (den c))) ps))
+          | Label ps =>
+              (* fix of finding D117: a 3-D 0.0/1.0 array is stored as the label 1, like a
+                 binary integer array - refused when 1.0 occurs and 1 is not described *)
+              if existsb (fun k => k =? den c) (concat ps) && negb (memz 1 (segs c))
+              then Err "ValueError"
+              else Ok (CLabel false (map (map (cast_float_bin (den c))) ps))
           | Stack ps =>
               let ps' := map (map (map (cast_float_bin (den c)))) ps in
               match t with
@@ -467,13 +472,19 @@ Definition int_values_ok (t : segtype) (sg : list Z) (i : input) : bool :=
                 match t with LABELMAP => negb (overlaps i) | _ => true end
   end.
 
+(* a floating point 2-D / 3-D array is ONE mask: for BINARY / FRACTIONAL the only
+   segment [1]; for LABELMAP the label 1 among any described numbers (D117) *)
+Definition is_labelmap (t : segtype) : bool := match t with LABELMAP => true | _ => false end.
+Definition float_label_ok (c : cfg) (i : input) : bool :=
+  if is_stack i then true else list_eqb (segs c) [1] || is_labelmap (ty c).
+
 Definition values_ok (c : cfg) (i : input) : bool :=
   match dt c with
   | DBad => false
   | DInt => int_values_ok (ty c) (segs c) i
   | DFloat =>
       (0 <? den c) &&
-      (if is_stack i then true else list_eqb (segs c) [1]) &&   (* a float label array is one segment *)
+      float_label_ok c i &&   (* a float label array is one segment / the label 1 *)
       match ty c with
       | FRACTIONAL => forallb (fun k => (0 <=? k) && (k <=? den c)) (all_pixels i)
       | t => forallb (fun k => (k =? 0) || (k =? den c)) (all_pixels i) &&
@@ -839,7 +850,7 @@ Definition well_formed (c : cfg) (i : input) : bool :=
   match dt c with
   | DBad => true
   | DInt => forallb (fun v => 0 <=? v) (all_pixels i)
-  | DFloat => (0 <? den c) && (if is_stack i then true else list_eqb (segs c) [1])
+  | DFloat => (0 <? den c) && float_label_ok c i
   end.
 
 (* ---- workers: the pool completes the encode tasks in ANY order -------- *)
@@ -1130,4 +1141,53 @@ Definition run_tiled (c : cfg) (R C : Z) (full refs : bool) (i : input) (req : l
            vz_list2 (map (stored_frame false st) (zrange (zlen (s_meta st))));
            vz_list (if refs then map (fun m => snd m + 1) (s_meta st) else []);
            VB (tiled_order_spec_holds c R C full i forder) ]
+  end.
+
+(* ================================================================== *)
+(* plane positions (session 6): the guard of                            *)
+(* seg/content.py DimensionIndexSequence.get_index_values               *)
+(* ================================================================== *)
+(* [dist]: per plane of the input array (in input order) an integer stand-in of
+   its position value - the distance of the plane from the origin along the
+   normal (patient coordinates) or the rank of its (row, column, x, y, z) tuple
+   (slide coordinates); premise G1 is thereby reduced to "equal positions <->
+   equal stand-ins, in the same order".
+   np.unique(values, return_index=True)[1]: for every DISTINCT value, in
+   ascending order, the index of its first occurrence.  [insert_key] keeps the
+   list of (value, first index) pairs strictly ascending by value. *)
+Fixpoint insert_key (k : Z * Z) (l : list (Z * Z)) : list (Z * Z) :=
+  match l with
+  | [] => [k]
+  | h :: t => if fst k <? fst h then k :: l
+              else if fst k =? fst h then l
+              else h :: insert_key k t
+  end.
+
+Definition unique_pairs (dist : list Z) : list (Z * Z) :=
+  fold_left (fun acc k => insert_key k acc) (combine dist (zrange (zlen dist))) [].
+
+Definition unique_index (dist : list Z) : list Z := map snd (unique_pairs dist).
+
+(* 'Input image/frame positions are not unique ...': len(plane_sort_indices) !=
+   len(plane_positions) *)
+Definition positions_unique (dist : list Z) : bool := zlen (unique_index dist) =? zlen dist.
+
+(* the constructor with the plane positions of the source as an input: the
+   checks in the order of the code (segment numbers, type / syntax, pixel array,
+   number of planes, positions, then the rest of [construct]) *)
+Definition construct_pos (c : cfg) (i : input) (dist : list Z) : res stored :=
+  if negb (seg_numbers_ok (ty c) (segs c)) then Err "ValueError" else
+  if match ty c with BINARY => negb (native c) | _ => false end then Err "ValueError" else
+  if match ty c with FRACTIONAL => 255 <? maxfrac c | _ => false end then Err "ValueError" else
+  bind (check_and_cast c i) (fun _ =>
+  if negb (n_planes i =? nsrc c) then Err "ValueError" else
+  if negb (positions_unique dist) then Err "ValueError" else
+  construct c i (unique_index dist)).
+
+(* the observation of run_seg_spec with the positions, not the permutation, as
+   the input *)
+Definition run_seg_pos (c : cfg) (i : input) (dist req : list Z) (byframe assert_missing : bool) : val :=
+  match construct_pos c i dist with
+  | Err k => VErr k
+  | Ok _ => run_seg_spec c i (unique_index dist) req byframe assert_missing
   end.
